@@ -6,6 +6,7 @@ TY = "./pkg/pdfcpu/types"
 FI = "./pkg/filter"
 API = "./pkg/api"
 PD = "./pkg/pdfcpu"
+SG = "./pkg/pdfcpu/sign"
 
 PROPS = {
     "C12": dict(
@@ -85,6 +86,27 @@ PROPS = {
         outside="validatePermissions (AES-256 /Perms check, stubbed to succeed); whether a command really needs the rights pdfcpu's table assigns to it",
         assumptions=["bit layout as documented by pdfcpu: revision 2 extract=bit 5, modify=bit 4; revision >= 3 extract=bit 10, modify=bit 11"],
         harnesses=[dict(name="VerifPermissionGate", opts=dict(unwind=200))],
+    ),
+    "C27": dict(
+        pkg=SG,
+        explanation="signedData (the digest input of every signature handler) executed symbolically on an arbitrary file (all bytes symbolic), arbitrary /ByteRange integers and an arbitrary /Contents string: whenever it succeeds the returned bytes are exactly file[0:b] ++ file[c:c+d]; hence the digest input is an injective function of the covered bytes and any change of a covered byte changes the input of the message digest (second harness states this directly on two files)",
+        outside="the PKCS#7/CMS, X.509 and RFC 3161 verification (collision resistance of the digest and correctness of crypto/... are assumptions); tampering with /Contents beyond the gap check; sample documents",
+        assumptions=["range lengths and the second offset bounded by file length + 2 in the read harness (full 64-bit arithmetic is covered by VerifByteRangeArithmetic)"],
+        harnesses=[
+            dict(name="VerifSignedDataCoverage", bounds=dict(quick=dict(N=4, H=1), thorough=dict(N=6, H=2)), opts=dict(unwind=600)),
+            dict(name="VerifSignedDataInjective", bounds=dict(quick=dict(N=3, H=0), thorough=dict(N=4, H=1)), opts=dict(unwind=600), thorough_only=True),
+            dict(name="VerifByteRangeArithmetic"),
+        ],
+    ),
+    "C28": dict(
+        pkg=SG,
+        explanation="two gates that every 'document unmodified' verdict passes: (1) sign.signedData succeeds only if the ranges start at 0, do not overlap, lie inside the file and the excluded gap is exactly the '<hex>' of /Contents (all file bytes, range integers and /Contents symbolic); (2) pdfcpu.recordSignedRevisionBoundaryEvidence lets the handler run for a current-revision signature only if offset+length of the second range equals the file size (all 64-bit values symbolic), and applyHistoricalRevisionReporting never leaves DocModified=False for a signature of an earlier revision",
+        outside="the sequencing inside validateSignature and the handlers (gate 2 precedes the handler, the handler calls signedData before any verdict) is established by reading, not by the solver; PKCS#7 verification; whole sample documents with incremental updates",
+        harnesses=[
+            dict(name="VerifSignedDataCoverage", bounds=dict(quick=dict(N=4, H=1), thorough=dict(N=6, H=2)), opts=dict(unwind=600)),
+            dict(name="VerifByteRangeArithmetic"),
+            dict(name="VerifRevisionBoundary", pkg=PD, opts=dict(unwind=100)),
+        ],
     ),
     "C31": dict(
         pkg=API,
